@@ -25,7 +25,7 @@ echo "demo without change: $base"; echo "demo with change: $with"; echo "suite w
 mkdir -p $D; cp $O/$L.diff $D/patch.diff; cp $demo $D/demo_test.go; [ -f $O/$L.md ] && cp $O/$L.md $D/NOTE.md
 results=""
 for c in $CHECKS; do
-  log=$(timeout 1800 /verif/tools/mutant_run.sh $W $c quick 2>&1); rc=$(echo "$log" | grep -o 'mutant_run: exit=[0-9]*' | tail -1 | cut -d= -f2)
+  log=$(VERIF_BUDGET_S=${VERIF_BUDGET_S:-600} timeout 3000 /verif/tools/mutant_run.sh $W $c quick 2>&1); rc=$(echo "$log" | grep -o 'mutant_run: exit=[0-9]*' | tail -1 | cut -d= -f2)
   first=$(echo "$log" | grep -m1 -B1 '^VIOLATION' | head -1 | cut -c1-300)
   echo "check $c: exit=$rc  $first"
   results="$results{\"check\":\"$c\",\"tier\":\"quick\",\"exit\":$rc,\"first_violation\":$(python3 -c 'import json,sys;print(json.dumps(sys.argv[1]))' "$first")},"
